@@ -22,9 +22,11 @@ func init() {
 type Call map[string]interface{}
 
 type Vec struct {
-	ID    int             `json:"id"`
-	Bits  json.RawMessage `json:"bits"`
-	Calls []Call          `json:"calls"`
+	ID     int             `json:"id"`
+	Bits   json.RawMessage `json:"bits"`
+	Word   []int           `json:"word"`
+	Repeat int             `json:"repeat"`
+	Calls  []Call          `json:"calls"`
 }
 
 func parseBits(raw json.RawMessage) ([]bool, error) {
@@ -340,6 +342,12 @@ func statsReplay(job []byte, out *Out) error {
 		bits, err := parseBits(v.Bits)
 		if err != nil {
 			return err
+		}
+		if v.Repeat > 0 && len(v.Word) > 0 {
+			bits = make([]bool, v.Repeat)
+			for i := range bits {
+				bits[i] = v.Word[i%len(v.Word)] != 0
+			}
 		}
 		for ci_, c := range v.Calls {
 			res := map[string]interface{}{"id": v.ID, "call": ci_, "t": c["t"], "entries": entries(c, bits)}
